@@ -10,6 +10,7 @@ B3: seeded random commit histories over the full universe and two columns (one w
 import json
 import os
 import vlib
+import dbharness
 
 
 def run(rep, tier, args):
@@ -54,9 +55,10 @@ def run(rep, tier, args):
         rep.count_case(w)
     rep.judge_trace("Trace_KVIter", "Trace_KVIter_small.cfg", tp, name="C11-b1", key_fn=key)
     # B3: random histories on the full universe, all backends, contents after every commit + full scans
-    nh, scan = (40, 8) if tier == "quick" else (400, 60)
+    nh, scan, nproc = (40, 8, 4) if tier == "quick" else (240, 32, 8)      # histories, of which end with a full scan
     tp3 = os.path.join(wd, "trace-b3.ndjson")
-    vlib.run_harness(hbin, ["kviter-random", "--walks", nh, "--len", 3, "--scan", scan, "--out", tp3])
+    dbharness.run_random_parallel(hbin, "kviter-random", tp3, nh, extra=["--len", 3, "--scan", scan // nproc],
+                                  nproc=nproc)
     sp = vlib.split_trace(tp3)
     nq = 0
     for w in sp:
